@@ -182,6 +182,17 @@ def run(ck):
     iv = inv[0]
     notc = [c for c in node_calls(iv) if norm(c.func) == 'cblocks.Not'][0]
     conn = [c for c in node_calls(iv, 'connect')]
+    ret_ok = isinstance(iv.ast, ast.Return)
+    if not conn and isinstance(iv.ast, ast.Assign) and len(iv.ast.targets) == 1 and \
+            isinstance(iv.ast.targets[0], ast.Name):
+        # `inv = Not(...)` followed by `return inv.connect(...)` / `inv.connect(...); return inv`
+        nm_ = iv.ast.targets[0].id
+        cn_ = nodes_where(g, lambda n: any(call_name(c) == 'connect' and recv(c) == nm_ for c in node_calls(n)))
+        if len(cn_) == 1 and g.dominates(iv, cn_[0]):
+            conn = [c for c in node_calls(cn_[0], 'connect')]
+            rets_ = [r for r in return_nodes(g) if g.dominates(cn_[0], r) or r is cn_[0]]
+            ret_ok = bool(rets_) and all(
+                r is cn_[0] or norm(r.ast.value) == nm_ for r in rets_)
     ok = g.has_guard(iv, f'{p} in self._blocks', False) and \
         g.has_guard(iv, f"{p}.startswith('_not_')", True) and \
         any('[5:6]' in t for t, pol in g.guard_texts(iv))
@@ -193,7 +204,7 @@ def run(ck):
           vb, iv.ast)
     ok = [norm(a) for a in notc.args[:1]] == [p] and bool(conn) and \
         [norm(a) for a in conn[0].args] in ([f"{p}.removeprefix('_not_')"], [f"{p}[5:]"]) and \
-        isinstance(iv.ast, ast.Return) and \
+        ret_ok and \
         any(k.arg == '_reserved' and is_const(k.value, True) for k in notc.keywords)
     ck.ob(R4, f"{vb.fid} :: inverter name and input", ok,
           "Not(<looked-up name>, _reserved=True).connect(<name without '_not_'>) is returned"
